@@ -4,51 +4,57 @@ import PyIpmi.Gen.Tables
 namespace PyIpmi.Model.Api
 open PyIpmi PyIpmi.Codec PyIpmi.Spec.Bmc PyIpmi.Gen.Tables
 
-def api_get_sensor_reading (num lun : Nat) (s : BmcState) : Outcome (BmcState × Result) :=
-  (transact reqGetSensorReading rspGetSensorReading lun (setInt (fresh reqGetSensorReading) 0 num) s).bind fun (s', v) =>
-    let reading := if bitAt v 2 1 != 0 then none else some (intAt v 1)
-    let states := match optIntAt v 3, optIntAt v 4 with
-      | some a, some b => some (a ||| b * 256)
-      | some a, none => some a
-      | none, _ => none
-    .ok (s', .optNatPair reading states)
+def api_get_sensor_reading (num lun : Nat) : Exchange :=
+  { req := reqGetSensorReading, rsp := rspGetSensorReading, lun := lun,
+    vals := .ok (setInt (fresh reqGetSensorReading) 0 num),
+    post := fun v =>
+      let reading := if bitAt v 2 1 != 0 then none else some (intAt v 1)
+      let states := match optIntAt v 3, optIntAt v 4 with
+        | some a, some b => some (a ||| b * 256)
+        | some a, none => some a
+        | none, _ => none
+      .ok (.optNatPair reading states) }
+
+/-- the `if <name> is not None:` blocks of set_sensor_thresholds, in source order -/
+def setThr (r : List Val) (vals : List (Option Nat)) (i : Nat) : List Val :=
+  match vals.getD i none with
+  | some v => setBit (setBit r 1 i 1) 2 i v
+  | none => r
 
 /-- `vals` in the order lnc lcr lnr unc ucr unr (the members of both bit-fields) -/
-def api_set_sensor_thresholds (num lun : Nat) (vals : List (Option Nat)) (s : BmcState) : Outcome (BmcState × Result) :=
+def api_set_sensor_thresholds (num lun : Nat) (vals : List (Option Nat)) : Exchange :=
   let r := setInt (fresh reqSetSensorThresholds) 0 num
-  let r := (List.range 6).foldl (fun r i =>
-    match vals.getD i none with
-    | some v => setBit (setBit r 1 i 1) 2 i v
-    | none => r) r
-  (transact reqSetSensorThresholds rspSetSensorThresholds lun r s).bind fun (s', _) => .ok (s', .unit)
+  let r := setThr (setThr (setThr (setThr (setThr (setThr r vals 0) vals 1) vals 2) vals 3) vals 4) vals 5
+  { req := reqSetSensorThresholds, rsp := rspSetSensorThresholds, lun := lun, vals := .ok r, post := fun _ => .ok .unit }
 
-def api_get_sensor_thresholds (num lun : Nat) (s : BmcState) : Outcome (BmcState × Result) :=
-  (transact reqGetSensorThresholds rspGetSensorThresholds lun (setInt (fresh reqGetSensorThresholds) 0 num) s).bind
-    fun (s', v) =>
-      .ok (s', .thresholds ((List.range 6).filterMap fun i =>
-        if bitAt v 1 i != 0 then some (i, bitAt v 2 i) else none))
+def api_get_sensor_thresholds (num lun : Nat) : Exchange :=
+  { req := reqGetSensorThresholds, rsp := rspGetSensorThresholds, lun := lun,
+    vals := .ok (setInt (fresh reqGetSensorThresholds) 0 num),
+    post := fun v =>
+      .ok (.thresholds ((List.range 6).filterMap fun i =>
+        if bitAt v 1 i != 0 then some (i, bitAt v 2 i) else none)) }
 
-def api_rearm_sensor_events (num : Nat) (s : BmcState) : Outcome (BmcState × Result) :=
-  (transact reqRearmSensorEvents rspRearmSensorEvents 0 (setInt (fresh reqRearmSensorEvents) 0 num) s).bind fun (s', _) =>
-    .ok (s', .unit)
+def api_rearm_sensor_events (num : Nat) : Exchange :=
+  { req := reqRearmSensorEvents, rsp := rspRearmSensorEvents, vals := .ok (setInt (fresh reqRearmSensorEvents) 0 num),
+    post := fun _ => .ok .unit }
 
-def api_send_platform_event (e : PlatformEvent) (s : BmcState) : Outcome (BmcState × Result) :=
+def api_send_platform_event (e : PlatformEvent) : Exchange :=
   let r := fresh reqPlatformEvent
   let r := setInt r 1 e.sensorType
   let r := setInt r 2 e.sensorNum
   let r := setBit r 3 0 e.eventType
   let r := setBit r 3 1 (if e.deassert then 1 else 0)
   let r := setArr r 4 e.data
-  (transact reqPlatformEvent rspPlatformEvent 0 r s).bind fun (s', _) => .ok (s', .unit)
+  { req := reqPlatformEvent, rsp := rspPlatformEvent, vals := .ok r, post := fun _ => .ok .unit }
 
-def api_set_event_receiver (addr7 lun : Nat) (s : BmcState) : Outcome (BmcState × Result) :=
+def api_set_event_receiver (addr7 lun : Nat) : Exchange :=
   let r := fresh reqSetEventReceiver
   let r := setBit r 0 1 addr7
   let r := setBit r 0 2 lun
-  (transact reqSetEventReceiver rspSetEventReceiver 0 r s).bind fun (s', _) => .ok (s', .unit)
+  { req := reqSetEventReceiver, rsp := rspSetEventReceiver, vals := .ok r, post := fun _ => .ok .unit }
 
-def api_get_event_receiver (s : BmcState) : Outcome (BmcState × Result) :=
-  (transact reqGetEventReceiver rspGetEventReceiver 0 (fresh reqGetEventReceiver) s).bind fun (s', v) =>
-    .ok (s', .natPair (bitAt v 1 1) (bitAt v 1 2))
+def api_get_event_receiver : Exchange :=
+  { req := reqGetEventReceiver, rsp := rspGetEventReceiver, vals := .ok (fresh reqGetEventReceiver),
+    post := fun v => .ok (.natPair (bitAt v 1 1) (bitAt v 1 2)) }
 
 end PyIpmi.Model.Api
